@@ -2,6 +2,7 @@
 // destructor removes it; double destruction, construction over a live object, and use of a dead
 // object are recorded as errors. Optional "throw on the n-th copy/move construction".
 #pragma once
+#include "kit/allocmeter.h"
 #include <cstdint>
 #include <set>
 #include <string>
@@ -29,6 +30,7 @@ struct Tracked {
 
   void born() {
     auto& t = tracker();
+    AllocMeter::Pause hold;   // the live set is the harness's bookkeeping, not an allocation of the library
     if (!t.live.insert(this).second) t.error("constructed over a live object");
     t.constructed++;
   }
